@@ -54,6 +54,19 @@ CHECKS["C01"] = ("other",
     "the behaviour; holding them does not establish it.",
     TB % "c01", "decision tables + monitors via abstract interpretation of MIR (no execution)", "DESIGN.md §5 C01")
 
+CHECKS["C08"] = ("other",
+    "Enumerates every panic-capable construct (asserts, panicking macros, unwrap/expect, panicking Index impls and std methods, "
+    "process::exit) in code reachable from the library API and the CLI main, over the resolved call graph (CHA for dyn/generic "
+    "calls). Each must be discharged by a rule re-checked on every run (derive-generated, writer fault, constant lazy_static "
+    "operand, Callable arity table tied to the parser's arity check, path-sensitive proof that the unwrapped value is Some/Ok), or "
+    "be in the reviewed table tables/panic_sites.tbl, or be a known finding (29 demonstrated crash sites are listed). A new "
+    "construct fails closed. Also: every call-graph cycle must be in the reviewed list of structurally decreasing recursions "
+    "(the by-name rule_status cycle is a finding), the parser runs under all_consuming, errors carry line+column, and callers "
+    "evaluate only after Ok(Some(rules)). Not claimed: termination of regex/libyaml, memory, dependencies' internals.",
+    "Trusted: rustc front end/MIR, the extractor, the call-graph construction (engine/cg.py), the reviewed tables (group-level "
+    "reasons obtained by reading the code).",
+    "site enumeration over the resolved call graph with discharge rules and reviewed tables (no execution)", "DESIGN.md §5 C08")
+
 NOT_APPLICABLE = {
 }
 
